@@ -9,5 +9,13 @@ def checkForCycle {P : Type} [DecidableEq P] (below : List (Nat × P)) (v : Nat)
   if ((decide ((((below.filter (fun k => k.1 == v)).map (fun k => k.2)).length) ≥ msl))) then 2 else
   0
 
-def translated : List (String × Bool) := [("checkForCycle", true)]
+/-- `Variable.get_formula` (openfisca_core/variables/variable.py): the `return None` guards on `self.formulas` / `self.end`, then the first-match scan of the SortedDict's keys; `l` = its items in ascending key order, `o` = the instant, `en` = the `end` attribute -/
+def variable_get_formula {F : Type} (l : List (Int × F)) (en : Option Int) (o : Int) : Option F :=
+  if l.isEmpty then none else
+  if (match en with | some e => decide (o > e) | none => false) then none else
+  match l.reverse.find? (fun f => decide (f.1 ≤ o)) with
+  | some f => some f.2
+  | none => none
+
+def translated : List (String × Bool) := [("checkForCycle", true), ("variable_get_formula", true)]
 end OFCore.Generated.Engine
